@@ -98,6 +98,41 @@ slices_q!(c28_slices_q2, 2, 64);
 slices_q!(c28_slices_q3_narrow, 3, 16);
 slices_q!(c28_slices_q4_narrow, 4, 16);
 
+/// The slice the runtime itself uses (10 ms, `SLICE`) with a symbolic total of 0..=3 slices plus a remainder below one slice:
+/// the same oracle as above with a CONCRETE divisor, so that it stays decidable when the implementation computes the pieces
+/// by division (a symbolic 128-bit divisor does not finish; the generic harnesses above then end without a verdict).
+#[kani::proof]
+#[kani::unwind(7)]
+fn c28_slices_runtime_slice() {
+    let slice = Duration::from_millis(10);
+    let q: u32 = kani::any();
+    kani::assume(q <= 3);
+    let r_nanos: u32 = kani::any();
+    kani::assume(r_nanos < 10_000_000);
+    let total = Duration::new(0, q * 10_000_000 + r_nanos);
+    let pieces = get_slices(total, slice);
+    if total == Duration::ZERO {
+        assert!(pieces.is_empty(), "zero total yields no slice");
+    } else {
+        let expect_len = if r_nanos == 0 { q as usize } else { q as usize + 1 };
+        assert!(pieces.len() == expect_len, "number of pieces");
+        let mut sum = Duration::ZERO;
+        let mut k = 0;
+        while k < pieces.len() {
+            let p = pieces[k];
+            assert!(p <= slice, "each piece fits in the slice");
+            assert!(p != Duration::ZERO, "no empty piece");
+            sum = sum.checked_add(p).unwrap();
+            k += 1;
+        }
+        assert!(sum == total, "pieces sum to the total");
+    }
+    kani::cover!(r_nanos == 0 && q == 3, "exact multiple: 30 ms by 10 ms");
+    kani::cover!(r_nanos == 0 && q == 1, "total equals the slice");
+    kani::cover!(r_nanos != 0 && q == 2, "total with a remainder");
+    core::mem::forget(pieces);
+}
+
 /// get_slices terminates for a total that is far larger than the bound above would allow only
 /// when each iteration makes progress: one loop step strictly decreases the remaining total.
 /// (Inductive step: any total > slice > 0 => checked_sub succeeds and the remainder is smaller.)
